@@ -223,12 +223,28 @@ func oneCase(o *out.W, r *rng.R, i int) {
 	st := canvas.DefaultStyle
 	st.Fill = canvas.Paint{Gradient: g}
 	c2.RenderPath(canvas.Rectangle(W, H), st, canvas.Identity)
+	// and a radial gradient on the right half
+	rg := canvas.NewRadialGradient(canvas.Point{X: W / 2, Y: H / 2}, 0, canvas.Point{X: W / 2, Y: H / 2}, W/2)
+	rg.Add(0, color.RGBA{180, 30, 60, 255})
+	rg.Add(0.4, color.RGBA{20, 150, 90, 255})
+	rg.Add(1, color.RGBA{70, 40, 160, 255})
+	rstopsBefore := append(canvas.Stops{}, rg.Stops...)
+	st.Fill = canvas.Paint{Gradient: rg}
+	c2.RenderPath(canvas.Rectangle(W/2, H).Translate(W/2, 0), st, canvas.Identity)
 	g1 := append([]byte{}, rasterizer.Draw(c2, canvas.DPMM(dpmm), cs).Pix...)
 	g2 := rasterizer.Draw(c2, canvas.DPMM(dpmm), cs).Pix
 	desc["gradient_second_render_identical"] = bytes.Equal(g1, g2)
 	same := len(stopsBefore) == len(g.Stops)
 	for k := range stopsBefore {
 		if same && stopsBefore[k] != g.Stops[k] {
+			same = false
+		}
+	}
+	if len(rstopsBefore) != len(rg.Stops) {
+		same = false
+	}
+	for k := range rstopsBefore {
+		if same && rstopsBefore[k] != rg.Stops[k] {
 			same = false
 		}
 	}
